@@ -8,7 +8,7 @@ use serde_json::json;
 
 pub fn run(rep: &mut Report) {
     quiet_panics();
-    rep.rule = "cell = (algorithm Opt/RevOpt, float type, set shape, sketch size m = ratio x |A∪B| with ratio from 1/100 to 1000); per trial fresh random items, A sketched through sketch_slice and B item-wise + end_sketch by the real code; statistics: fraction of equal positions in the float, u64 and u32 views, target J for each (staged z-test on the empirical trial variance; J in {0,1} exact). Distinct = cells; non-trivial: 0<J<1".into();
+    rep.rule = "cell = (algorithm Opt/RevOpt, float type, set shape, sketch size m = ratio x |A∪B| with ratio from 1/100 to 1000, seeded ratios in between, and sketches of ~35000 positions for sets of ~70000 items); per trial fresh random items, A sketched through sketch_slice and B item-wise + end_sketch by the real code; statistics: fraction of equal positions in the float, u64 and u32 views, target J for each (staged z-test on the empirical trial variance; J in {0,1} exact). Distinct = cells; non-trivial: 0<J<1".into();
     // (a_only, b_only, both)
     let shapes: Vec<(&str, usize, usize, usize)> = vec![("third", 2, 2, 2), ("half", 1, 1, 2), ("j09", 1, 1, 18), ("j005", 10, 9, 1), ("disjoint", 3, 4, 0), ("identical", 0, 0, 5), ("nested", 0, 4, 2), ("singletons", 1, 0, 1)];
     let mut ratios: Vec<(String, f64)> = [("1/100", 0.01), ("1/10", 0.1), ("1", 1.), ("10", 10.), ("100", 100.), ("1000", 1000.)].iter().map(|(n, r)| (n.to_string(), *r)).collect();
@@ -20,6 +20,9 @@ pub fn run(rep: &mut Report) {
             ratios.push((format!("{}", x), x));
         }
     }
+    // large sketches with sets larger than the sketch (several items per bin, sketch size above 2^15): the resolution of the
+    // float values inside a bin matters there
+    ratios.push(("1/2@large".to_string(), 0.5));
     let kinds = [UKind::OptF32, UKind::OptF64, UKind::RevF32, UKind::RevF64];
     let t1: u64 = rep.tier.pick(4000, 50_000);
     let mut ci = 0u64;
@@ -28,12 +31,16 @@ pub fn run(rep: &mut Report) {
             for (si, (sname, ao, bo, both)) in shapes.iter().enumerate() {
                 ci += 1;
                 let hsel = mix(&[ci, rep.seed, 0xC08]);
-                if rep.tier == Tier::Quick && hsel % 3 != 0 {
+                let large = rname.ends_with("@large");
+                if large && (!matches!(kind, UKind::OptF32 | UKind::OptF64) || !(*sname == "third" || *sname == "disjoint") || (kind == UKind::OptF64 && rep.tier == Tier::Quick)) {
+                    continue;
+                }
+                if rep.tier == Tier::Quick && hsel % 3 != 0 && !large {
                     continue;
                 }
                 // scale the shape so that the sketch size is reasonable: union size U, m = ratio * U
                 let base = ao + bo + both;
-                let scale = if *ratio < 1. { ((20. / ratio) / base as f64).ceil() as usize } else { 1 };
+                let scale = if large { 70_000 / base } else if *ratio < 1. { ((20. / ratio) / base as f64).ceil() as usize } else { 1 };
                 let (ao, bo, both) = (ao * scale, bo * scale, both * scale);
                 let u = ao + bo + both;
                 let mut m = ((u as f64) * ratio).round().max(1.) as usize;
